@@ -207,7 +207,14 @@ def relperm_table(rng, sw: float, kind: str):
     cols = {k: df[k].to_numpy(float) for k in ("kro", "krg", "krw")}
     if kind == "water":
         cols["krw"] = np.full(len(df), float(rng.uniform(0.01, 0.2)))
-    return df["So"].to_numpy(float), cols, {"kind": kind, "params": [float(x) for x in prm]}
+    so = df["So"].to_numpy(float)
+    order = "So ascending"
+    if rng.random() < 0.4:
+        # gas-oil rel-perm tables are usually listed by increasing gas saturation, i.e. with So descending
+        so = so[::-1].copy()
+        cols = {k: v[::-1].copy() for k, v in cols.items()}
+        order = "So descending"
+    return so, cols, {"kind": kind, "params": [float(x) for x in prm], "rows": order}
 
 
 def _grid(rng, uniform: bool, n: int, lo: float, hi: float, unit: bool = False):
